@@ -100,7 +100,9 @@ def main() -> int:
         rp = json.load(open(replay))
         jobs = [] if (rp.get("refusal") or rp.get("deck_history") or rp.get("host")) else [(rp["id"], rp["kind"], rp["prep"], rp["ops"])]
     else:
-        cfgs = [("pairs", kinds, 2)] + ([("triples", ["textbox", "table", "chart_bar", "picture", "slide", "ph_insert"], 3)] if thorough else [])
+        # quick: the line chart with a DATE axis stands for the line chart (same writer, same operations + the date-axis ones)
+        cfgs = [("pairs", kinds if thorough else [k for k in kinds if k != "chart_line"], 2)] + (
+            [("triples", ["textbox", "table", "chart_bar", "picture", "slide", "ph_insert"], 3)] if thorough else [])
         seen = set()
         for name, ks, depth in cfgs:
             seqs, r = explore(work, name, ks, depth, opsfile)
